@@ -4,6 +4,7 @@ import VarmqVerif.Model.Sig
 import VarmqVerif.Model.Sig2
 import VarmqVerif.Model.Race
 import VarmqVerif.Model.Metr
+import VarmqVerif.Model.Trim
 import VarmqVerif.Model.Wake
 import VarmqVerif.Model.Ack
 import VarmqVerif.Model.Pool
@@ -744,4 +745,65 @@ def feed (kind : String) (st : RState St) (lineNo : Nat) (l : RawLine) : RState 
       | .error e => .rejected lineNo s!"{e} @ {l.tag} {l.g} {" ".intercalate l.f}"
   | r => r
 end MetrMap
+end VarmqVerif.Driver
+
+namespace VarmqVerif.Driver
+-- ---------------------------------------------------------------- Trim (how many workers the pool keeps; no idle expiry)
+namespace TrimMap
+open Trim
+
+structure St where
+  s : Trim.State := {}
+  serveOf : List (Nat × Nat) := []      -- server goroutine ↦ pool node
+  created : List (Nat × Nat) := []      -- goroutine ↦ node it has just taken from the cache (initPoolNode)
+  popNil : List Nat := []               -- dispatchers whose PopBack returned nil (a worker is being created)
+  tuneArg : List (Nat × Nat) := []      -- goroutine ↦ argument of its PopBackIfLonger call
+
+def nodeId (s : String) : Nat := natOf ((s.splitOn "#").getD 1 "")
+def aget (l : List (Nat × Nat)) (k : Nat) : Option Nat := (l.find? (·.1 == k)).map (·.2)
+def aset (l : List (Nat × Nat)) (k v : Nat) : List (Nat × Nat) := (k, v) :: l.filter (·.1 != k)
+
+def events (x : St) (l : RawLine) : Except String (St × List Ev) :=
+  let g := l.g
+  match l.tag, l.f with
+  | "E", [fn, obj, op, arg, res] =>
+    if op == "newticker" then .error "NA idle-worker expiry (the reaper is outside this model)"
+    else if obj.startsWith "List#" && !(obj == "List#1" || obj.startsWith "List#1.") then .error "NA second worker"
+    else if fn == "worker.initPoolNode" && op == "get" then
+      let k := nodeId res
+      if x.popNil.contains g then .ok ({ x with popNil := x.popNil.filter (· != g), created := aset x.created g k }, [.create k])
+      else .ok ({ x with created := aset x.created g k }, [])
+    else if fn == "Node.Serve" && op == "call:Serve" then .ok ({ x with serveOf := aset x.serveOf g (nodeId obj) }, [])
+    else if obj == "List#1" && op == "ret:PopBack" then
+      if res == "nil" then .ok ({ x with popNil := g :: x.popNil }, []) else .ok (x, [.take (nodeId res)])
+    else if obj == "List#1" && op == "ret:PushNode" then
+      match aget x.serveOf g with
+      | some k => .ok (x, [.keep k])
+      | none => .ok (x, [.start])
+    else if obj == "List#1" && op == "ret:Len" then
+      match aget x.serveOf g with
+      | some k => if x.s.busy k then .ok (x, [.look k]) else .ok (x, [])
+      | none => .ok (x, [])
+    else if fn == "Node.Stop" && op == "call:Stop" then
+      match aget x.serveOf g with
+      | some k => if nodeId obj == k then .ok (x, [.retire k]) else .error "a worker goroutine stops another worker"
+      | none => .ok (x, [])
+    else if obj == "List#1" && op == "call:PopBackIfLonger" then .ok ({ x with tuneArg := aset x.tuneArg g (natOf arg) }, [])
+    else if obj == "List#1" && op == "ret:PopBackIfLonger" then
+      if res == "nil" then .ok (x, []) else .ok (x, [.tune ((aget x.tuneArg g).getD 0)])
+    else if obj == "List#1" && op == "ret:NodeSlice" then .ok (x, [.stopAll])
+    else .ok (x, [])
+  | _, _ => .ok (x, [])
+
+def feed (st : RState St) (lineNo : Nat) (l : RawLine) : RState St :=
+  match st with
+  | .ok x =>
+    match events x l with
+    | .error e => if e.startsWith "NA" then .na e else .rejected lineNo s!"{e} @ {l.tag} {l.g} {" ".intercalate l.f}"
+    | .ok (x', evs) =>
+      match feedAll (Trim.step false) x'.s evs with
+      | .ok s' => .ok { x' with s := s' }
+      | .error e => .rejected lineNo s!"{e} @ {l.tag} {l.g} {" ".intercalate l.f}"
+  | r => r
+end TrimMap
 end VarmqVerif.Driver
